@@ -312,6 +312,11 @@ func (r Registry[R, T]) implementRemoteStructRecursively(
 			return ErrInvalidArgs
 		}
 
+		// Unexported fields can't be set (and can't be called from outside the package either)
+		if !remote.FieldByName(functionField.Name).CanSet() {
+			continue
+		}
+
 		remote.
 			FieldByName(functionField.Name).
 			Set(r.makeRPC(
